@@ -105,15 +105,8 @@ def judge_walk(ctx, cases):
 
 # ---------------------------------------------------------------------------------------------------------- part 2: events
 def api_of(fam, as_):
-    base = FAMNAME[fam]
-    if len(as_) == 1 and as_[0].startswith("all "):
-        return base
-    rd = [("Load@" in a or "Reader" in a) for a in as_]
-    if all(rd):
-        return base + "@reader"
-    if not any(rd):
-        return base + "@buffer"
-    return base + "@some"
+    """the family of calls; which of its calls (buffer / reader, chunking) deviated is in the witness"""
+    return FAMNAME[fam]
 
 
 def judge_tok(ctx, cases):
@@ -190,7 +183,7 @@ def walk_cases(ctx):
         raise Infra("WalkGen produced only %d trees" % len(out))
     ctx.cov["walk_model_trees"] = len(out)
     xb = ctx.build("xwalk")
-    p = ctx.run([xb, "walk-gen", "-n", "400" if ctx.quick else "12000"])
+    p = ctx.run([xb, "walk-gen", "-n", "250" if ctx.quick else "12000"])
     for line in p.stdout.decode().splitlines():
         if line.strip():
             out.append(json.loads(line))
@@ -218,8 +211,6 @@ def tok_cases(ctx):
             out.append({"src": "tlc", "x": x, "m": {"t": t, "k": k, "b": b}, "y": y, "ne": o["ne"], "nd": o["nd"]})
         mk("none", 0, 0, x)
         if ctx.quick:
-            if rnd.random() < 0.45:
-                continue
             cuts = range(len(x)) if len(x) <= 6 else rnd.sample(range(len(x)), 3)
             sw = o["sw"] if len(o["sw"]) <= 3 else rnd.sample(o["sw"], 3)
         else:
@@ -236,7 +227,7 @@ def tok_cases(ctx):
         raise Infra("TokenEventsGen produced only %d texts" % texts)
     ctx.cov["token_model_texts"] = texts
     xb = ctx.build("xwalk")
-    p = ctx.run([xb, "tok-gen", "-n", "200" if ctx.quick else "5000"])
+    p = ctx.run([xb, "tok-gen", "-n", "160" if ctx.quick else "5000"])
     for line in p.stdout.decode().splitlines():
         if line.strip():
             out.append(json.loads(line))
